@@ -367,7 +367,9 @@ class HistogramDensityMethod(BatchDetector):
         self.total_epsilon = 0
 
         if self.detect_batch == 1:
-            self.update(test_proxy)
+            # pass the proxy batch as a bare array: only user input may
+            # establish column names
+            self.update(test_proxy.values)
 
     def _build_histograms(self, dataset, min_values, max_values):
         """
